@@ -196,6 +196,38 @@ func (a Tuple) M__ne__(other Object) (Object, error) {
 	return False, nil
 }
 
+func (a Tuple) M__lt__(other Object) (Object, error) {
+	b, ok := other.(Tuple)
+	if !ok {
+		return NotImplemented, nil
+	}
+	return sequenceOrder(a, b, Lt, func(la, lb int) bool { return la < lb })
+}
+
+func (a Tuple) M__le__(other Object) (Object, error) {
+	b, ok := other.(Tuple)
+	if !ok {
+		return NotImplemented, nil
+	}
+	return sequenceOrder(a, b, Le, func(la, lb int) bool { return la <= lb })
+}
+
+func (a Tuple) M__gt__(other Object) (Object, error) {
+	b, ok := other.(Tuple)
+	if !ok {
+		return NotImplemented, nil
+	}
+	return sequenceOrder(a, b, Gt, func(la, lb int) bool { return la > lb })
+}
+
+func (a Tuple) M__ge__(other Object) (Object, error) {
+	b, ok := other.(Tuple)
+	if !ok {
+		return NotImplemented, nil
+	}
+	return sequenceOrder(a, b, Ge, func(la, lb int) bool { return la >= lb })
+}
+
 // Check interface is satisfied
 var _ sequenceArithmetic = Tuple(nil)
 var _ I__str__ = Tuple(nil)
